@@ -2,25 +2,31 @@ import RsMatterVerif.Generated.Consts
 /-!
 # Model of the chunking of a `ReportData` answer (`rs-matter/src/im.rs`, `ReportDataResponder`)
 
-`respond` → `start_reply` (reset, `shrink(RESERVE)`, struct start [+ subscription id]) →
+`respond` → `start_reply` (reset, `shrink(RESERVE + STRUCT_RESERVE)`, struct start [+ subscription id]) →
 `report_attributes` (array start; per expanded item the write / `NoSpace` / rewind / `send` chunk /
-retry loop; `send_array_items` for a whole-list read that does not fit) → array end →
-`send(Done)` with `end_reply` (`expand(RESERVE)`, trailer).
+retry loop; `send_array_items` for a whole-list read that does not fit; an item that does not even
+fit an empty message is answered with an error status; array end from the structural reserve) →
+`report_events` (array start from the structural reserve; status reports for concrete paths that do
+not validate; the fetch loop over the event buffer with the reader's cursor: write / `NoSpace` /
+rewind / `send` chunk / rescan from the start of the buffer skipping everything up to the cursor;
+array end from the structural reserve) → `send(Done)` with `end_reply` (`expand(RESERVE)`, trailer)
+unless the report is empty and empty reports are not to be sent.
 
 Items are abstracted to their encoded sizes: an attribute report is written atomically by
-`HandlerInvoker::process_read` / `send_array_items` (on any error the buffer is rewound to the
-position before the report), so a report is either completely in a chunk or not at all.  The
-event section is not modelled.  Import-free (apart from the generated constants).
+`HandlerInvoker::process_read` / `send_array_items`, an event report by `EventReader::process_read`
+(on any error the buffer is rewound to the position before the report), so a report is either
+completely in a chunk or not at all.  Import-free (apart from the generated constants).
 -/
 namespace Chunk
 
 /-- sizes of the fixed parts of a message -/
 structure Cfg where
-  /-- length of the transmit buffer (`MAX_EXCHANGE_TX_BUF_SIZE`) -/
+  /-- length of the transmit buffer (`MAX_EXCHANGE_TX_BUF_SIZE`, or what the buffer was cut to) -/
   cap : Nat
   /-- `LONG_READS_TLV_RESERVE_SIZE` -/
   reserve : Nat
-  /-- extra bytes of the reserve that only the structural writes (array end) may use -/
+  /-- `LONG_READS_STRUCT_RESERVE_SIZE`: extra bytes that only the structural writes (array end /
+  start) may use, each after an `expand` by its own size -/
   structReserve : Nat
   /-- what `start_reply` writes: struct start (+ subscription id) -/
   hdr : Nat
@@ -32,20 +38,24 @@ structure Cfg where
   trailerMore : Nat
   /-- `end_reply(Done)`: [SuppressResponse] + revision + struct end -/
   trailerDone : Nat
+  /-- `start_array(EventReports)` -/
+  evOpen : Nat := 2
 deriving Repr, DecidableEq, Inhabited
 
-/-- the space the attribute reports may use -/
+/-- the space the reports may use (`buf_size` after `start_reply`) -/
 def Cfg.limit (c : Cfg) : Nat := c.cap - c.reserve - c.structReserve
 
-/-- an expanded item of the request, by encoded sizes -/
+/-- an expanded item of the request, by encoded sizes; `st` = size of the error status report that
+stands for the item when its report fits no message (`stE`: for a list element — the path carries
+a list index) -/
 inductive Item
   /-- a non-list attribute (or a status): one report of `size` bytes -/
-  | scalar (id : Nat) (size : Nat)
+  | scalar (id : Nat) (size : Nat) (st : Nat)
   /-- a list attribute read as a whole: `whole` = size of the single report carrying the complete
   list, `empty` = size of the report carrying the empty list (start of the chunked form),
   `elems` = sizes of the per-element (append) reports, `probe` = the bytes the read of the index
   one past the end writes (report header) before the handler answers "no such element" -/
-  | list (id : Nat) (whole : Nat) (empty : Nat) (elems : List Nat) (probe : Nat)
+  | list (id : Nat) (whole : Nat) (empty : Nat) (elems : List Nat) (probe : Nat) (st : Nat) (stE : Nat)
 deriving Repr, DecidableEq, Inhabited
 
 /-- one attribute report of the answer -/
@@ -54,6 +64,8 @@ inductive Piece
   | wholeList (id : Nat) (size : Nat) (elems : List Nat)
   | listStart (id : Nat) (size : Nat)
   | listElem (id : Nat) (idx : Nat) (size : Nat)
+  /-- error status for attribute `id` (its report fits no message) -/
+  | status (id : Nat) (size : Nat)
 deriving Repr, DecidableEq, Inhabited
 
 def Piece.size : Piece → Nat
@@ -61,25 +73,45 @@ def Piece.size : Piece → Nat
   | .wholeList _ s _ => s
   | .listStart _ s => s
   | .listElem _ _ s => s
+  | .status _ s => s
+
+/-- one event report of the answer -/
+inductive EvPiece
+  /-- the data of event number `num` -/
+  | data (num : Nat) (size : Nat)
+  /-- status for the `k`-th concrete event path of the request that does not validate -/
+  | status (k : Nat) (size : Nat)
+deriving Repr, DecidableEq, Inhabited
+
+def EvPiece.size : EvPiece → Nat
+  | .data _ s => s
+  | .status _ s => s
 
 /-- one message of the answer -/
 structure ChunkOut where
+  /-- attribute reports -/
   pieces : List Piece
   /-- total encoded size of the message -/
   size : Nat
   /-- MoreChunkedMessages -/
   more : Bool
+  /-- event reports -/
+  events : List EvPiece := []
 deriving Repr, DecidableEq, Inhabited
 
 inductive Err
-  /-- a structural write (array end) found no space: the interaction fails with `NoSpace` -/
+  /-- a write outside the retry loops found no space: the interaction fails with `NoSpace` -/
   | noSpace
-  /-- a report does not fit an empty chunk: the retry loop never ends (it keeps sending empty chunks) -/
+  /-- the retry loop never ends (it keeps sending empty chunks) -/
   | loops
+  /-- an event report does not fit an empty message: the interaction fails with `ResourceExhausted` -/
+  | tooBig
 deriving Repr, DecidableEq, Inhabited
 
-/-- the responder between two items: finished chunks (newest first), the reports of the open chunk
-(newest first) and the write position in it -/
+/-! ## attribute section -/
+
+/-- the responder between two attribute reports: finished chunks (newest first), the reports of the
+open chunk (newest first) and the write position in it -/
 structure St where
   done : List ChunkOut
   cur : List Piece
@@ -93,41 +125,70 @@ def St.flush (c : Cfg) (s : St) : St :=
   { done := { pieces := s.cur.reverse, size := s.used + c.trailerMore, more := true } :: s.done,
     cur := [], used := c.hdr + c.arrOpen }
 
-/-- write one report: `Ok` / `NoSpace` → rewind → send the chunk → retry -/
-def put (c : Cfg) (s : St) (p : Piece) : Except Err St :=
-  if s.used + p.size ≤ c.limit then .ok { s with cur := p :: s.cur, used := s.used + p.size }
-  else
-    -- the new chunk starts at `hdr + arrOpen` (see `St.flush`)
-    if c.hdr + c.arrOpen + p.size ≤ c.limit then
-      .ok { s.flush c with cur := [p], used := c.hdr + c.arrOpen + p.size }
-    else .error .loops
+/-- the open chunk holds no report (`wb.get_tail() == reports_start`) -/
+def St.fresh (c : Cfg) (s : St) : Bool := s.used == c.hdr + c.arrOpen
 
-/-- the per-element reports of `send_array_items`, from index `k` on -/
-def putElems (c : Cfg) (id : Nat) : Nat → List Nat → St → Except Err St
-  | _, [], s => .ok s
+def St.write (s : St) (p : Piece) : St := { s with cur := p :: s.cur, used := s.used + p.size }
+
+/-- what the `NoSpace` arm does before the retry: a chunk that holds reports is sent, an empty one
+is not (sending it would not make room) -/
+def St.next (c : Cfg) (s : St) : St := if s.fresh c then s else s.flush c
+
+/-- find room for `n` bytes: in the open chunk, or — `NoSpace`, rewind — in the next one;
+`none`: not even an empty message has room -/
+def room (c : Cfg) (s : St) (n : Nat) : Option St :=
+  if s.used + n ≤ c.limit then some s
+  else if (s.next c).used + n ≤ c.limit then some (s.next c) else none
+
+/-- the report fits no message: an error status stands for it (written into the empty message;
+if even that finds no space the interaction fails) -/
+def fallback (c : Cfg) (s : St) (st : Piece) : Except Err St :=
+  if (s.next c).used + st.size ≤ c.limit then .ok ((s.next c).write st) else .error .noSpace
+
+/-- write one report: `Ok` / `NoSpace` → rewind → send the chunk → retry; the flag tells that the
+error status `st` was written instead -/
+def put (c : Cfg) (s : St) (p : Piece) (st : Piece) : Except Err (St × Bool) :=
+  match room c s p.size with
+  | some s' => .ok (s'.write p, false)
+  | none =>
+    match fallback c s st with
+    | .ok s' => .ok (s', true)
+    | .error e => .error e
+
+/-- the per-element reports of `send_array_items`, from index `k` on; the flag tells that the list
+was cut short by an error status -/
+def putElems (c : Cfg) (id st : Nat) : Nat → List Nat → St → Except Err (St × Bool)
+  | _, [], s => .ok (s, false)
   | k, e :: es, s =>
-    match put c s (.listElem id k e) with
-    | .ok s' => putElems c id (k + 1) es s'
+    match put c s (.listElem id k e) (.status id st) with
+    | .ok (s', false) => putElems c id st (k + 1) es s'
+    | .ok (s', true) => .ok (s', true)
     | .error err => .error err
 
 /-- end of `send_array_items`: the read of the index past the end writes the report header before
 the handler answers `ConstraintError`; if that header does not fit, the `NoSpace` arm sends the
 chunk first and the retry then ends the list -/
-def endProbe (c : Cfg) (s : St) (probe : Nat) : St :=
-  if s.used + probe ≤ c.limit then s else s.flush c
+def endProbe (c : Cfg) (s : St) (id probe st : Nat) : Except Err St :=
+  match room c s probe with
+  | some s' => .ok s'
+  | none => fallback c s (.status id st)
 
 def putItem (c : Cfg) (s : St) : Item → Except Err St
-  | .scalar id sz => put c s (.scalar id sz)
-  | .list id whole empty elems probe =>
+  | .scalar id sz st =>
+    match put c s (.scalar id sz) (.status id st) with
+    | .ok (s', _) => .ok s'
+    | .error e => .error e
+  | .list id whole empty elems probe st stE =>
     -- first attempt: the whole list as one report; on `NoSpace` no chunk is sent, the list is
     -- streamed instead: empty list, then one report per element
-    if s.used + whole ≤ c.limit then
-      .ok { s with cur := .wholeList id whole elems :: s.cur, used := s.used + whole }
+    if s.used + whole ≤ c.limit then .ok (s.write (.wholeList id whole elems))
     else
-      match put c s (.listStart id empty) with
-      | .ok s' =>
-        match putElems c id 0 elems s' with
-        | .ok s'' => .ok (endProbe c s'' probe)
+      match put c s (.listStart id empty) (.status id st) with
+      | .ok (s', true) => .ok s'
+      | .ok (s', false) =>
+        match putElems c id stE 0 elems s' with
+        | .ok (s'', true) => .ok s''
+        | .ok (s'', false) => endProbe c s'' id probe stE
         | .error err => .error err
       | .error err => .error err
 
@@ -138,41 +199,268 @@ def putItems (c : Cfg) : List Item → St → Except Err St
     | .ok s' => putItems c its s'
     | .error err => .error err
 
-/-- end of `report_attributes` + `send(Done)`: the array end is a structural write (it may use the
-structural reserve), then the final trailer -/
-def finish (c : Cfg) (s : St) : Except Err (List ChunkOut) :=
-  if s.used + c.close ≤ c.limit + c.structReserve then
-    .ok (({ pieces := s.cur.reverse, size := s.used + c.close + c.trailerDone, more := false } :: s.done).reverse)
+/-- an attribute path of the request as the expander and the handler see it -/
+structure AttrReq where
+  item : Item
+  /-- verdict of the responder's `filter` closure (a subscription report selects only changed attributes) -/
+  wanted : Bool := true
+  /-- the data version of the attribute's cluster -/
+  dataver : Nat := 0
+  /-- the data version filter of the request for this cluster (none in a subscription report) -/
+  filter : Option Nat := none
+deriving Repr, DecidableEq, Inhabited
+
+/-- `ReadReply::with_dataver`: nothing is written when the cluster's data version is the filter's -/
+def AttrReq.unchanged (a : AttrReq) : Bool := a.filter == some a.dataver
+
+/-- the items the expander yields -/
+def yielded (as : List AttrReq) : List AttrReq := as.filter (·.wanted)
+
+/-- `process_read` of a yielded item -/
+def putAttr (c : Cfg) (s : St) (a : AttrReq) : Except Err St :=
+  if a.unchanged then .ok s else putItem c s a.item
+
+def putAttrs (c : Cfg) : List AttrReq → St → Except Err St
+  | [], s => .ok s
+  | a :: as, s =>
+    match putAttr c s a with
+    | .ok s' => putAttrs c as s'
+    | .error err => .error err
+
+/-! ## event section -/
+
+/-- an event in the buffer: its number, the size of its report, whether it matches the request's
+paths, the accessor's fabric and access rights -/
+structure Ev where
+  num : Nat
+  size : Nat
+  sel : Bool := true
+deriving Repr, DecidableEq, Inhabited
+
+structure EvReq where
+  /-- the event buffer in iteration order (critical ring, info ring, debug ring) -/
+  buf : List Ev
+  /-- `event_min` of the request's event filters -/
+  mins : List Nat := []
+  /-- the reader's cursor at the start (`max_seen_event_number`: 0 for a read) -/
+  maxSeen : Nat := 0
+  /-- `next_max_seen_event_number` (`u64::MAX` for a read) -/
+  nextMax : Nat
+  /-- sizes of the status reports for the concrete paths of the request that do not validate -/
+  statuses : List Nat := []
+deriving Repr, DecidableEq, Inhabited
+
+/-- `matches_paths && matches_filters && matches_access` (and the fabric filter) -/
+def EvReq.passes (r : EvReq) (e : Ev) : Bool := e.sel && r.mins.all fun m => decide (m ≤ e.num)
+
+/-- `event_number > max_seen && event_number <= next_max_seen` -/
+def EvReq.inRange (r : EvReq) (cursor : Nat) (e : Ev) : Bool :=
+  decide (cursor < e.num) && decide (e.num ≤ r.nextMax)
+
+/-- the responder in the event section -/
+structure ESt where
+  done : List ChunkOut
+  /-- attribute reports of the open chunk (only the chunk in which the attribute array ends has any) -/
+  attrs : List Piece
+  /-- event reports of the open chunk, newest first -/
+  evs : List EvPiece
+  /-- write position after `start_array(EventReports)` in the open chunk -/
+  base : Nat
+  used : Nat
+  /-- `buf_size` of the `WriteBuf` -/
+  lim : Nat
+  /-- nothing precedes the event array in the open chunk -/
+  fresh : Bool
+  /-- `max_seen_event_number` of the reader -/
+  cursor : Nat
+  /-- nothing was reported so far -/
+  empty : Bool
+deriving Repr, DecidableEq, Inhabited
+
+/-- `send(ChunkingEvents)` -/
+def ESt.flushEv (c : Cfg) (s : ESt) : ESt :=
+  { s with
+    done := { pieces := s.attrs.reverse, events := s.evs.reverse, size := s.used + c.trailerMore, more := true } :: s.done,
+    attrs := [], evs := [], base := c.hdr + c.evOpen, used := c.hdr + c.evOpen, lim := c.limit, fresh := true }
+
+def ESt.writeEv (s : ESt) (p : EvPiece) : ESt :=
+  { s with evs := p :: s.evs, used := s.used + p.size, empty := false }
+
+/-- the status report of a concrete path that does not validate: one retry after sending the chunk -/
+def putEvStatus (c : Cfg) (s : ESt) (k sz : Nat) : Except Err ESt :=
+  if s.used + sz ≤ s.lim then .ok (s.writeEv (.status k sz))
+  else if (s.flushEv c).used + sz ≤ (s.flushEv c).lim then .ok ((s.flushEv c).writeEv (.status k sz))
   else .error .noSpace
 
-/-- **the chunking algorithm** -/
+def putEvStatuses (c : Cfg) : Nat → List Nat → ESt → Except Err ESt
+  | _, [], s => .ok s
+  | k, sz :: rest, s =>
+    match putEvStatus c s k sz with
+    | .ok s' => putEvStatuses c (k + 1) rest s'
+    | .error e => .error e
+
+/-- one `events.fetch`: iterate the buffer from its start; `false` = stopped at `NoSpace` -/
+def pass (r : EvReq) : List Ev → ESt → ESt × Bool
+  | [], s => (s, true)
+  | e :: es, s =>
+    if r.inRange s.cursor e then
+      if r.passes e then
+        if s.used + e.size ≤ s.lim then pass r es { s.writeEv (.data e.num e.size) with cursor := e.num }
+        else (s, false)              -- `NoSpace`: rewound, the cursor stays
+      else pass r es { s with cursor := e.num }   -- considered, not reported
+    else pass r es s                 -- outside the range of interest
+
+/-- the fetch loop: after `NoSpace` the chunk is sent and the buffer iterated again from its start
+(an empty message that still has no room ends the interaction) -/
+def evLoop (c : Cfg) (r : EvReq) : Nat → ESt → Except Err ESt
+  | 0, _ => .error .loops
+  | fuel + 1, s =>
+    match pass r r.buf s with
+    | (s', true) => .ok s'
+    | (s', false) =>
+      if s'.fresh && s'.used == s'.base then .error .tooBig
+      else evLoop c r fuel (s'.flushEv c)
+
+/-- `WriteBuf::expand` -/
+def expand (c : Cfg) (lim n : Nat) : Except Err Nat :=
+  if n ≤ c.cap - lim then .ok (lim + n) else .error .noSpace
+
+/-- `start_reply` + `report_attributes` -/
+def attrSection (c : Cfg) : Option (List AttrReq) → Except Err ESt
+  | none =>
+    .ok { done := [], attrs := [], evs := [], base := c.hdr, used := c.hdr, lim := c.limit,
+          fresh := true, cursor := 0, empty := true }
+  | some as =>
+    match putAttrs c (yielded as) (St.init c) with
+    | .error e => .error e
+    | .ok s =>
+      -- structural write: `expand(1)`, `end_container`
+      match expand c c.limit c.close with
+      | .error e => .error e
+      | .ok lim =>
+        if s.used + c.close ≤ lim then
+          .ok { done := s.done, attrs := s.cur, evs := [], base := s.used + c.close, used := s.used + c.close,
+                lim := lim, fresh := false, cursor := 0, empty := (yielded as).isEmpty }
+        else .error .noSpace
+
+/-- `report_events` -/
+def eventSection (c : Cfg) (s : ESt) : Option EvReq → Except Err ESt
+  | none => .ok s
+  | some r =>
+    match expand c s.lim c.evOpen with
+    | .error e => .error e
+    | .ok lim =>
+      if s.used + c.evOpen ≤ lim then
+        let s1 : ESt := { s with lim := lim, used := s.used + c.evOpen, base := s.used + c.evOpen, cursor := r.maxSeen }
+        match putEvStatuses c 0 r.statuses s1 with
+        | .error e => .error e
+        | .ok s2 =>
+          match evLoop c r (r.buf.length + 1) s2 with
+          | .error e => .error e
+          | .ok s3 =>
+            match expand c s3.lim c.close with
+            | .error e => .error e
+            | .ok lim' =>
+              if s3.used + c.close ≤ lim' then .ok { s3 with lim := lim', used := s3.used + c.close }
+              else .error .noSpace
+      else .error .noSpace
+
+/-- `send(Done)`: `end_reply` = `expand(RESERVE)` + trailer -/
+def sendDone (c : Cfg) (s : ESt) : Except Err (List ChunkOut) :=
+  match expand c s.lim c.reserve with
+  | .error e => .error e
+  | .ok lim =>
+    if s.used + c.trailerDone ≤ lim then
+      .ok (({ pieces := s.attrs.reverse, events := s.evs.reverse, size := s.used + c.trailerDone, more := false } :: s.done).reverse)
+    else .error .noSpace
+
+structure Req where
+  /-- the attribute paths (`attr_requests`), expanded -/
+  attrs : Option (List AttrReq)
+  /-- `event_requests` -/
+  events : Option EvReq := none
+  /-- `send_if_empty` (reads and primings: true) -/
+  sendIfEmpty : Bool := true
+deriving Repr, DecidableEq, Inhabited
+
+/-- **the responder**: the messages it sends -/
+def respond (c : Cfg) (r : Req) : Except Err (List ChunkOut) :=
+  match attrSection c r.attrs with
+  | .error e => .error e
+  | .ok s1 =>
+    match eventSection c s1 r.events with
+    | .error e => .error e
+    | .ok s2 =>
+      if r.sendIfEmpty || !s2.empty then sendDone c s2
+      else .ok s2.done.reverse     -- "No data to report, skipping sending ReportData response"
+
+/-- a read of attributes only, without filters -/
 def chunks (c : Cfg) (items : List Item) : Except Err (List ChunkOut) :=
-  match putItems c items (St.init c) with
-  | .ok s => finish c s
-  | .error err => .error err
+  respond c { attrs := some (items.map fun it => { item := it }) }
 
 /-! ## Specification side -/
 
-/-- the content of an item (sizes stand for the encoded values) -/
-def Item.pieces (split : Bool) : Item → List Piece
-  | .scalar id sz => [.scalar id sz]
-  | .list id whole empty elems _ =>
-    if split then .listStart id empty :: (elems.zipIdx.map fun (e, k) => .listElem id k e)
-    else [.wholeList id whole elems]
+/-- how an item came out -/
+inductive Out
+  /-- one report -/
+  | whole
+  /-- a list as "empty list + one append per element" -/
+  | split
+  /-- an error status instead of the (first) report -/
+  | failed
+  /-- a streamed list cut after `k` elements by an error status -/
+  | cut (k : Nat)
+deriving Repr, DecidableEq, Inhabited
+
+def elemPieces (id : Nat) (k : Nat) (es : List Nat) : List Piece :=
+  (es.zipIdx k).map fun (e, i) => .listElem id i e
+
+/-- the reports of an item -/
+def Item.pieces : Item → Out → List Piece
+  | .scalar id sz _, .whole => [.scalar id sz]
+  | .scalar id sz _, .split => [.scalar id sz]
+  | .scalar id _ st, _ => [.status id st]
+  | .list id whole _ elems _ _ _, .whole => [.wholeList id whole elems]
+  | .list id _ empty elems _ _ _, .split => .listStart id empty :: elemPieces id 0 elems
+  | .list id _ _ _ _ st _, .failed => [.status id st]
+  | .list id _ empty elems _ _ stE, .cut k => .listStart id empty :: (elemPieces id 0 (elems.take k) ++ [.status id stE])
+
+/-- the value is delivered completely -/
+def Out.complete : Out → Bool
+  | .whole => true
+  | .split => true
+  | _ => false
 
 /-- every report that the algorithm may have to place in an empty chunk fits one -/
 def Item.fits (c : Cfg) : Item → Bool
-  | .scalar _ sz => decide (c.hdr + c.arrOpen + sz ≤ c.limit)
-  | .list _ _ empty elems _ =>
-    decide (c.hdr + c.arrOpen + empty ≤ c.limit) && elems.all fun e => decide (c.hdr + c.arrOpen + e ≤ c.limit)
+  | .scalar _ sz _ => decide (c.hdr + c.arrOpen + sz ≤ c.limit)
+  | .list _ _ empty elems probe _ _ =>
+    decide (c.hdr + c.arrOpen + empty ≤ c.limit) && decide (c.hdr + c.arrOpen + probe ≤ c.limit) &&
+      elems.all fun e => decide (c.hdr + c.arrOpen + e ≤ c.limit)
 
 def Fits (c : Cfg) (items : List Item) : Prop := ∀ it ∈ items, it.fits c = true
 
-/-- the configuration is sane: the trailers fit the reserve, an empty chunk has room -/
+/-- the attributes a correct answer carries: yielded by the expander and not held back by a data
+version filter -/
+def selected (as : List AttrReq) : List Item :=
+  ((yielded as).filter fun a => !a.unchanged).map (·.item)
+
+/-- the events a correct answer carries -/
+def EvReq.selected (r : EvReq) : List Ev :=
+  r.buf.filter fun e => r.inRange r.maxSeen e && r.passes e
+
+/-- the event reports a correct answer carries -/
+def EvReq.reports (r : EvReq) : List EvPiece :=
+  (r.statuses.zipIdx.map fun (sz, k) => EvPiece.status k sz) ++ r.selected.map fun e => .data e.num e.size
+
+/-- the configuration is sane: the trailers fit the reserve, the structural writes fit the
+structural reserve, an empty chunk has room -/
 structure Cfg.WF (c : Cfg) : Prop where
   room : c.reserve + c.structReserve ≤ c.cap
-  trailerMore : c.trailerMore ≤ c.reserve + c.structReserve
-  trailerDone : c.close + c.trailerDone ≤ c.reserve + c.structReserve
+  trailerMore : c.trailerMore ≤ c.reserve
+  trailerDone : c.trailerDone ≤ c.reserve
+  struct : c.close + c.evOpen + c.close ≤ c.structReserve
   start : c.hdr + c.arrOpen ≤ c.limit
+  startEv : c.hdr + c.evOpen ≤ c.limit
 
 end Chunk
